@@ -31,6 +31,7 @@ class FN:
     ghost: Dict[str, str] = field(default_factory=dict)   # ghost constants defined at entry
     modifies: List[str] = field(default_factory=list)     # params whose heap state may change
     inline: bool = False               # callers execute the body instead of using the contract
+    inline_at_calls: bool = False      # verified on its own AND executed in place at call sites
     props: List[str] = field(default_factory=list)        # property ids served
     witness: Optional[dict] = None     # concrete args for the vacuity witness / replay template
     notes: str = ""
